@@ -228,13 +228,13 @@ def npa_constraints(
                     )
 
                     # r x r sub - block is PSD since it's an unnormalized quantum state.
-                    constraints.append(
-                        assemblage[x_alice_in, y_bob_in][
-                            a_ans * referee_dim : (a_ans + 1) * referee_dim,
-                            b_ans * referee_dim : (b_ans + 1) * referee_dim,
-                        ]
-                        >> 0
-                    )
+                    sub_block = assemblage[x_alice_in, y_bob_in][
+                        a_ans * referee_dim : (a_ans + 1) * referee_dim,
+                        b_ans * referee_dim : (b_ans + 1) * referee_dim,
+                    ]
+                    constraints.append(sub_block >> 0)
+                    if referee_dim > 1:
+                        constraints.append(sub_block == sub_block.H)
 
             constraints.append(sum_all_meas_and_trace == 1)
 
